@@ -9,7 +9,9 @@
               requested -- the compiler's own helper columns (row numbers)        [c05_helpers_exposed_refuted]
          F26  a star expands in table order, the frame may list other columns first  [c05_star_order_refuted] *)
 From Coq Require Import List Bool Arith.
-From PV Require Import Model.Rel Proofs.FrameFacts Model.Wildcards Proofs.WildcardsProofs Model.Dedup Proofs.DedupProofs.
+From Coq Require Import NArith Permutation.
+From PV Require Import Lib.ListX Model.Ident Model.NameGen.
+From PV Require Import Model.Rel Proofs.FrameFacts Model.Wildcards Proofs.WildcardsProofs Model.Dedup Proofs.DedupProofs Model.SelectItems Proofs.SelectItemsProofs.
 Import ListNotations.
 
 Theorem c05_select_one_column_per_item : forall cols l r, In r (Rel.apply (TSelect cols) l) -> length r = length cols.
@@ -89,4 +91,122 @@ Print Assumptions c05_star_order_refuted.
 
 Example c05_ex_two_stars :
   translate_wildcards [(1, None); (3, Some [1; 2; 3]); (9, None); (6, Some [4; 5; 6]); (4, None)] = ([3; 9; 6], [(6, [5]); (3, [2])]).
+Proof. vm_compute. reflexivity. Qed.
+
+
+(* ==== the SELECT list: translate_select_item / translate_exclude / translate_select_items (Model/SelectItems.v, compared with
+   every real call through the hooks select-item bab53a0 + select-items 7fc85b6).  `lower` = str::to_lowercase is a parameter;
+   the only thing asked of it: generated names are already lower case. *)
+
+(* a column that has a name shows exactly that name: as the last part of its identifier, or through `AS name` *)
+Theorem c05_select_item_carries_name : forall lower reserved st c e it st' x,
+  select_item lower reserved st c e = Some (it, st') -> nget (cnames st) c = Some x -> item_name it = Some x.
+Proof. exact select_item_carries_name. Qed.
+Print Assumptions c05_select_item_carries_name.
+
+(* a column WITHOUT a name whose expression would give it one gets an invented alias: generated (`_expr_k`, k not below the
+   counter), not the name of any column in use (755de8e), not a reserved column name in any letter case (6cdd79f), and
+   column_names records it *)
+Theorem c05_select_item_invented_alias : forall lower reserved,
+  (forall k, lower (gen_name expr_prefix k) = gen_name expr_prefix k) ->
+  forall st c e it st', select_item lower reserved st c e = Some (it, st') -> nget (cnames st) c = None -> inferred e <> None ->
+  exists a, it = SAlias c e a /\ ~ In a (map snd (cnames st)) /\ ~ In (lower a) reserved /\
+            (exists k, (counter st <= k)%N /\ a = gen_name expr_prefix k /\ (k < counter st')%N) /\ nget (cnames st') c = Some a.
+Proof. exact select_item_invented_alias. Qed.
+Print Assumptions c05_select_item_invented_alias.
+
+Theorem c05_select_item_total : forall lower reserved,
+  (forall k, lower (gen_name expr_prefix k) = gen_name expr_prefix k) ->
+  forall st c e, exists it st', select_item lower reserved st c e = Some (it, st').
+Proof. exact select_item_total. Qed.
+Print Assumptions c05_select_item_total.
+
+(* with EXCLUDE / EXCEPT the star names exactly the excluded columns, each once; without the facility: nothing (F23's corner) *)
+Theorem c05_exclude_names_exact : forall k ex, exists ns, translate_exclude (Some k) ex = Some (k, ns) /\ Permutation ns (map xname ex).
+Proof. exact translate_exclude_exact. Qed.
+Print Assumptions c05_exclude_names_exact.
+
+Theorem c05_exclude_dropped_without_support : forall ex, translate_exclude None ex = None.
+Proof. exact translate_exclude_unsupported. Qed.
+Print Assumptions c05_exclude_dropped_without_support.
+
+(* one item per requested column, in order; and every requested column that has a name shows it at its own position *)
+Theorem c05_select_items_one_item_per_column : forall lower reserved supported omit_prefix cols st ex items st',
+  items_loop lower reserved supported omit_prefix st ex cols = Some (items, st') ->
+  map item_cid items = map (fun r => Some (creq_cid r)) cols.
+Proof. exact items_loop_one_per_column. Qed.
+Print Assumptions c05_select_items_one_item_per_column.
+
+Theorem c05_select_items_names_in_order : forall lower reserved supported omit_prefix cols st ex items st',
+  items_loop lower reserved supported omit_prefix st ex cols = Some (items, st') -> NoDup (map creq_cid cols) ->
+  Forall2 (fun r it => match r with
+                       | CCol c _ => forall x, nget (cnames st) c = Some x -> item_name it = Some x
+                       | CStar _ _ => True
+                       end) cols items.
+Proof. exact items_loop_names. Qed.
+Print Assumptions c05_select_items_names_in_order.
+
+(* the whole function.  Full statement "the emitted list is the item list" is FALSE (F13, below); it holds when every item
+   brings an identifier part or alias that was not seen before *)
+Theorem c05_select_items_exact_partial : forall lower reserved supported omit_prefix zero_ok st ex cols items final st',
+  select_items lower reserved supported omit_prefix zero_ok st ex cols = Some (items, final, st') ->
+  all_fresh [] (map (to_dedup (flat_map item_strs items)) items) = true -> items <> [] ->
+  final = items /\ map item_cid final = map (fun r => Some (creq_cid r)) cols.
+Proof. exact select_items_exact_partial. Qed.
+Print Assumptions c05_select_items_exact_partial.
+
+Theorem c05_select_items_bounds : forall lower reserved supported omit_prefix zero_ok st ex cols items final st',
+  select_items lower reserved supported omit_prefix zero_ok st ex cols = Some (items, final, st') ->
+  length items = length cols /\ (length final <= Nat.max 1 (length cols)) /\ (zero_ok = false -> final <> []).
+Proof. exact select_items_bounds. Qed.
+Print Assumptions c05_select_items_bounds.
+
+(* F13 at this level: `select {a, a}` -- two requested columns named a, both plain identifiers: ONE item is emitted *)
+Definition s_a : str := [97%N].
+Theorem c05_select_items_drops_column_refuted :
+  exists st ex cols items final st',
+    select_items lower_ascii [] None true false st ex cols = Some (items, final, st') /\ NoDup (map creq_cid cols) /\
+    length cols = 2 /\ length items = 2 /\ length final = 1.
+Proof.
+  exists (mkn [(1, s_a); (2, s_a)] 0%N), [], [CCol 1 (ECompound [s_a]); CCol 2 (ECompound [s_a])].
+  eexists. eexists. eexists. split; [vm_compute; reflexivity|].
+  split; [repeat constructor; cbn; intuition discriminate | repeat split].
+Qed.
+Print Assumptions c05_select_items_drops_column_refuted.
+
+(* composition with translate_wildcards: on a dialect with EXCLUDE / EXCEPT the emitted SELECT list shows exactly the
+   requested columns; without it nothing requested is lost (and helper columns may be shown: c05_helpers_exposed_refuted) *)
+Theorem c05_select_list_shows_requested : forall lower reserved k omit_prefix orig_of shape_of table_of name_of cols st items st',
+  wf_cols orig_of [] cols -> NoDup (fst (translate_wildcards cols)) ->
+  items_loop lower reserved (Some k) omit_prefix st (excluded_of name_of (snd (translate_wildcards cols)))
+             (reqs_of orig_of shape_of table_of (fst (translate_wildcards cols))) = Some (items, st') ->
+  forall x, In x (items_show orig_of items) <-> In x (map fst cols).
+Proof. exact select_list_shows_requested. Qed.
+Print Assumptions c05_select_list_shows_requested.
+
+Theorem c05_select_list_no_loss : forall lower reserved omit_prefix orig_of shape_of table_of name_of cols st items st',
+  wf_cols orig_of [] cols -> NoDup (fst (translate_wildcards cols)) ->
+  items_loop lower reserved None omit_prefix st (excluded_of name_of (snd (translate_wildcards cols)))
+             (reqs_of orig_of shape_of table_of (fst (translate_wildcards cols))) = Some (items, st') ->
+  forall x, In x (map fst cols) -> In x (items_show orig_of items).
+Proof. exact select_list_no_loss. Qed.
+Print Assumptions c05_select_list_no_loss.
+
+(* non-vacuity: the F23 call of above through the whole SELECT-list construction, on a dialect with EXCLUDE and on one without *)
+Definition s_t : str := [116%N].
+Definition s_id : str := [105%N; 100%N].
+Definition f23_names (c : cid) : option str := if Nat.eqb c 4 then Some s_a else if Nat.eqb c 5 then Some s_id else if Nat.eqb c 7 then Some (gen_name expr_prefix 0) else None.
+Example c05_ex_f23_select_list :
+  let run sup := items_loop lower_ascii [] sup true (mkn [(4, s_a); (5, s_id)] 1%N) (excluded_of f23_names (snd (translate_wildcards f23_cols)))
+                            (reqs_of f23_orig (fun _ => EOther) (fun _ => Some s_t) (fst (translate_wildcards f23_cols))) in
+  option_map (fun r => map show_item (fst r)) (run (Some XExclude)) = Some [(2%N, (1%N, []), [gen_name expr_prefix 0])] /\
+  option_map (fun r => map show_item (fst r)) (run None) = Some [(2%N, (0%N, []), [])] /\
+  option_map (fun r => items_show f23_orig (fst r)) (run (Some XExclude)) = Some [6; 4; 5] /\
+  option_map (fun r => items_show f23_orig (fst r)) (run None) = Some [6; 4; 5; 7].
+Proof. vm_compute. repeat split. Qed.
+
+Example c05_ex_invented_alias : (* `u.a` of a column without a name while `_expr_0` is taken and `_expr_1` is a reserved column name *)
+  option_map (fun r => show_item (fst r))
+    (select_item lower_ascii [gen_name expr_prefix 1] (mkn [(1, s_a); (2, gen_name expr_prefix 0)] 0%N) 6 (ECompound [[117%N]; s_a]))
+  = Some (1%N, (0%N, [[117%N]; s_a]), [gen_name expr_prefix 2]).
 Proof. vm_compute. reflexivity. Qed.
